@@ -9,12 +9,16 @@ N == Len(Rec)
 VARIABLES l, viol
 Init == l = 0 /\ viol = <<>>
 SameOrigin(a, b) == a.scheme = b.scheme /\ a.host = b.host /\ a.port = b.port
+Secure(sch) == sch \in {"https", "wss"}
 Step == /\ l < N /\ l' = l + 1
-        /\ LET e == Rec[l + 1] IN
-           viol' = IF e.e = "Handoff" /\ ~SameOrigin(e.ro, e.co)
-                   THEN Append(viol, [l |-> l + 1, tag |-> "C06:cross-origin-many-keys", r |-> e.r, c |-> e.c, run |-> 1, base |-> 1,
-                                      ro |-> e.ro.uri, co |-> e.co.uri])
-                   ELSE viol
+        /\ LET e == Rec[l + 1]
+               cross == e.e = "Handoff" /\ ~SameOrigin(e.ro, e.co)
+               V(tag) == [l |-> l + 1, tag |-> tag, r |-> e.r, c |-> e.c, run |-> 1, base |-> 1, ro |-> e.ro.uri, co |-> e.co.uri]
+           IN viol' = viol \o (IF cross THEN <<V("C06:cross-origin-many-keys")>> ELSE <<>>)
+                          \* C12 at the same level (TlsRoute.tla P_PoolClass): a request of the secure scheme class is never
+                          \* served by a connection that was dialled for an insecure origin
+                          \o (IF cross /\ Secure(e.ro.scheme) /\ ~Secure(e.co.scheme)
+                              THEN <<V("C12:secure-request-on-plaintext-connection-many-keys")>> ELSE <<>>)
 Spec == Init /\ [][Step]_<<l, viol>>
 Consumed == TLCGet("stats").diameter - 1 = N
 Report == l = N => PrintT(<<"VIOL", ToJson(viol)>>)
